@@ -194,6 +194,95 @@ fn eval_schedule(inp: &ReadInput, base: &CreateResult, sched: &Schedule) -> Opti
     }
 }
 
+/// Inputs whose one-chunk outcome may be a refusal: the outcome (refusal, or the same result) must
+/// be the same however the bytes arrive, and a damaged compressed block must be refused always.
+fn odd_inputs() -> Vec<(ReadInput, bool)> {
+    let cs = call_set();
+    let mut v = Vec::new();
+    let lf = String::from_utf8(render(&cs, Container::Vcf, &Layout::Single)).unwrap();
+    let crlf = lf.replace('\n', "\r\n");
+    let lines: Vec<&str> = lf.lines().collect();
+    let n = lines.len();
+    let with_blank = |nl: &str, at: usize, final_blank: bool| -> String {
+        let mut out = String::new();
+        for (i, l) in lines.iter().enumerate() {
+            out.push_str(l);
+            out.push_str(nl);
+            if i == at {
+                out.push_str(nl);
+            }
+        }
+        if final_blank {
+            out.push_str(nl);
+        }
+        out
+    };
+    let mut texts: Vec<(String, String)> = vec![("vcf with CRLF line ends".into(), crlf.clone())];
+    for (nl, nl_name) in [("\n", "LF"), ("\r\n", "CRLF")] {
+        texts.push((format!("vcf ({nl_name}) with a blank line between two records"), with_blank(nl, n - 4, false)));
+        texts.push((format!("vcf ({nl_name}) with a blank line behind the header"), with_blank(nl, n - 10, false)));
+        texts.push((format!("vcf ({nl_name}) with a blank line at the end"), with_blank(nl, usize::MAX, true)));
+    }
+    texts.push(("vcf without the final line end".into(), lf.trim_end_matches('\n').to_string()));
+    for (name, t) in texts {
+        v.push((ReadInput { name: format!("{name} ({} bytes)", t.len()), container: Some(Container::Vcf), bytes: Arc::new(t.into_bytes()), threads: 1, first_block: 0 }, false));
+    }
+    // one bit of the checksum of a middle BGZF block flipped
+    for c in [Container::VcfGz, Container::Bcf] {
+        let mut bytes = render(&cs, c, &Layout::PerUnit);
+        let mut starts = Vec::new();
+        let mut at = 0;
+        while at + 18 <= bytes.len() {
+            starts.push(at);
+            at += u16::from_le_bytes([bytes[at + 16], bytes[at + 17]]) as usize + 1;
+        }
+        // blocks: ..., data blocks, empty EOF block
+        let k = starts.len() / 2;
+        let end = starts[k + 1];
+        bytes[end - 8] ^= 0x10;
+        let first_block = u16::from_le_bytes([bytes[16], bytes[17]]) as usize + 1;
+        for t in [1usize, 2] {
+            v.push((ReadInput { name: format!("{} (one block per unit) with a checksum bit of block {k} of {} flipped ({} bytes)", c.name(), starts.len(), bytes.len()), container: Some(c), bytes: Arc::new(bytes.clone()), threads: t, first_block }, true));
+        }
+    }
+    v
+}
+
+fn eval_odd(inp: &ReadInput, must_fail: bool, base: &Result<CreateResult, String>, sched: &Schedule) -> Option<Viol> {
+    let (r, _, _) = observe(inp, sched);
+    let kind = inp.container.map_or("npy", |c| c.name());
+    let mut case = case_j(inp, sched);
+    if let J::Obj(o) = &mut case {
+        o.push(("odd".into(), J::Bool(true)));
+        o.push(("must_fail".into(), J::Bool(must_fail)));
+    }
+    if let Err(e) = &r {
+        if e.starts_with("panic:") {
+            return Some((format!("C18|lib|odd-input-panic|{kind}|{}", norm_msg(e)), format!("{}: schedule {} caused a panic: {e}", inp.name, sched.describe()), case));
+        }
+    }
+    if must_fail {
+        return match r {
+            Err(_) => None,
+            Ok(x) => Some((format!("C18|lib|damaged-block-accepted|{kind}"), format!("{} (threads {}): schedule {} gives the spectrum {:?} although a compressed block fails its checksum", inp.name, inp.threads, sched.describe(), x.spectrum.data), case)),
+        };
+    }
+    let same = match (&r, base) {
+        (Ok(a), Ok(b)) => same_result(a, b),
+        (Err(_), Err(_)) => true,
+        _ => false,
+    };
+    if same {
+        None
+    } else {
+        Some((
+            format!("C18|lib|outcome-depends-on-chunking|{kind}|{}", if base.is_ok() { "accepted-in-one-chunk" } else { "refused-in-one-chunk" }),
+            format!("{}: schedule {} gives {:?}, delivered in one chunk it gives {:?}", inp.name, sched.describe(), r.as_ref().map(|c| &c.spectrum.data), base.as_ref().map(|c| &c.spectrum.data)),
+            case,
+        ))
+    }
+}
+
 fn read_inputs(tier: Tier) -> Vec<ReadInput> {
     let cs = call_set();
     let mut v = Vec::new();
@@ -550,6 +639,63 @@ pub fn run(tier: Tier) -> i32 {
         exhaustive: true,
         extra: vec![("deviation_bound_completed".into(), J::Int(if tier.thorough() { 2 } else { 1 }))],
     });
+    {
+        let odd = odd_inputs();
+        let obases: Vec<Result<CreateResult, String>> = odd.iter().map(|(i, _)| observe(i, &Schedule::whole()).0).collect();
+        let mut ojobs: Vec<(usize, Schedule)> = Vec::new();
+        for (i, (inp, _)) in odd.iter().enumerate() {
+            let len = inp.bytes.len();
+            ojobs.push((i, Schedule::whole()));
+            for c in 1..len {
+                ojobs.push((i, Schedule::cuts(&[c])));
+            }
+            for k in [1usize, 2, 3, 7, 64, 4099] {
+                ojobs.push((i, Schedule::periodic(k)));
+            }
+        }
+        let res = par_map(ojobs.len(), |j| {
+            let (i, sc) = &ojobs[j];
+            eval_odd(&odd[*i].0, odd[*i].1, &obases[*i], sc)
+        });
+        for v in res.into_iter().flatten() {
+            rep.violation(v.0, v.1, v.2);
+        }
+        // the damaged blocks through the binary (path and stdin, default and strict mode)
+        let oscratch = Scratch::new("c18odd");
+        let mut n_cli = 0u64;
+        for (inp, must_fail) in &odd {
+            if !*must_fail {
+                continue;
+            }
+            let path = oscratch.file(inp.container.unwrap().suffix(), &inp.bytes);
+            let ts = inp.threads.to_string();
+            for (how, args, stdin) in [
+                ("path", vec!["create", "--threads", &ts, path.to_str().unwrap()], Stdin::Null),
+                ("stdin", vec!["create", "--threads", &ts], Stdin::Bytes(&inp.bytes)),
+                ("path, --strict", vec!["create", "--strict", "--threads", &ts, path.to_str().unwrap()], Stdin::Null),
+                ("path, -q", vec!["create", "-q", "--threads", &ts, path.to_str().unwrap()], Stdin::Null),
+            ] {
+                n_cli += 1;
+                let o = run_sfs(&args, stdin, &oscratch);
+                if o.ok() || !o.stdout.is_empty() || !o.diagnosed_error() {
+                    rep.violation(
+                        format!("C18|cli|damaged-block-accepted|{}|{how}", inp.container.unwrap().name()),
+                        format!("sfs {} on {}: {} stdout {:?} stderr {:?}", args[..args.len().min(4)].join(" "), inp.name, o.status_str(), o.stdout_str(), o.stderr_str()),
+                        J::obj([("kind", J::s("c18-damaged")), ("container", J::s(inp.container.unwrap().name())), ("threads", J::u(inp.threads)), ("how", J::s(how)), ("bytes_hex", J::s(hex(&inp.bytes)))]),
+                    );
+                }
+            }
+        }
+        let refused = obases.iter().filter(|b| b.is_err()).count();
+        rep.part(Part {
+            name: "lib: inputs at the edge of the format under every chunk schedule".into(),
+            evaluations: ojobs.len() as u64 + n_cli,
+            nontrivial: ojobs.len() as u64 - odd.len() as u64 + n_cli,
+            note: format!("{} inputs (the call set as VCF with CRLF line ends, with a blank line behind the header / between records / at the end in LF and CRLF, without the final line end; vcf.gz and bcf with one checksum bit of a middle block flipped, 1 and 2 inflater threads) x every single cut and periodic chunks of 1,2,3,7,64,4099 bytes: the outcome - the same result, or a refusal - must not depend on the schedule ({refused} inputs are refused in one chunk), and a block failing its checksum is refused under every schedule, and by `sfs create` (path, stdin, --strict, -q) with a diagnosed error and nothing printed", odd.len()),
+            exhaustive: true,
+            extra: vec![("refused_in_one_chunk".into(), J::u(refused))],
+        });
+    }
     rep.sample(J::obj([
         ("input", J::s(inputs[2].name.clone())),
         ("schedule", J::s(Schedule::cuts(&[1]).describe())),
@@ -843,8 +989,30 @@ pub fn replay(case: &J) -> Option<Vec<String>> {
                 period: case.get("period")?.as_i64()? as usize,
                 fault_at: case.get("fault_at").and_then(|x| x.as_i64()).map(|x| x as usize),
             };
+            if case.get("odd").is_some() {
+                let must_fail = matches!(case.get("must_fail"), Some(J::Bool(true)));
+                let base = observe(&inp, &Schedule::whole()).0;
+                return Some(eval_odd(&inp, must_fail, &base, &sched).into_iter().map(|(k, w, _)| format!("{k} :: {w}")).collect());
+            }
             let base = observe(&inp, &Schedule::whole()).0.ok()?;
             Some(eval_schedule(&inp, &base, &sched).into_iter().map(|(k, w, _)| format!("{k} :: {w}")).collect())
+        }
+        "c18-damaged" => {
+            let bytes = crate::json::unhex(case.get("bytes_hex")?.as_str()?)?;
+            let scratch = Scratch::new("c18r");
+            let cname = case.get("container")?.as_str()?;
+            let c = Container::all().into_iter().find(|c| c.name() == cname)?;
+            let path = scratch.file(c.suffix(), &bytes);
+            let ts = case.get("threads")?.as_i64()?.to_string();
+            let how = case.get("how")?.as_str()?.to_string();
+            let (args, stdin): (Vec<&str>, Stdin) = match how.as_str() {
+                "stdin" => (vec!["create", "--threads", &ts], Stdin::Bytes(&bytes)),
+                "path, --strict" => (vec!["create", "--strict", "--threads", &ts, path.to_str().unwrap()], Stdin::Null),
+                "path, -q" => (vec!["create", "-q", "--threads", &ts, path.to_str().unwrap()], Stdin::Null),
+                _ => (vec!["create", "--threads", &ts, path.to_str().unwrap()], Stdin::Null),
+            };
+            let o = run_sfs(&args, stdin, &scratch);
+            Some(if o.ok() || !o.stdout.is_empty() || !o.diagnosed_error() { vec![format!("C18|cli|damaged-block-accepted :: {}", o.status_str())] } else { vec![] })
         }
         "c18-write" => {
             let si = case.get("spectrum")?.as_i64()? as usize;
